@@ -523,6 +523,9 @@ def dispatch(it, body, st, t, fn, args, depth):
             k = len(st.egcds)
             g, x, y = Poly.sym("egcd%d_g(%r,%r)" % (k, P, Q)), Poly.sym("egcd%d_x(%r,%r)" % (k, P, Q)), Poly.sym("egcd%d_y(%r,%r)" % (k, P, Q))
             st.egcds.append((P, Q, g, x, y))
+            # gcd(P, Q) = 0 only for P = Q = 0
+            if any(st.known_zero(v_) is False or st.known_zero(-v_) is False for v_ in (P, Q)):
+                st.nz.add(g.single_symbol())
             return ret(st, STRUCT("num_integer::ExtendedGcd", {"gcd": bigint_from_value_sign(st, 1, g), "x": BIGVAL(x), "y": BIGVAL(y)}))
     # ---- opaque magnitude functions (uninterpreted symbols)
     if name in ("pow", "sqrt", "cbrt", "nth_root", "gcd", "lcm", "modpow", "modinv", "bits", "trailing_zeros") and args:
